@@ -140,6 +140,11 @@ def rs_meta(rs: RecSort) -> dict:
 def call_builtin(m: Any, name: str, args: list[V], kwargs: dict[str, V], node: ast.Call | None, hint: str | None) -> V:
     from .symex import RaiseSig
 
+    if name == "set" and not args:
+        if not (hint and hint.startswith("Set[")):
+            raise EngineError(f"{m.contract.key}: set() needs a declared sort in contract.locals")
+        from .maps import new_set_cell
+        return new_set_cell(m, hint)
     if name == "len":
         v = args[0]
         if isinstance(v, VTuple):
